@@ -65,12 +65,22 @@ pub fn update(
     /// Panics if ranges cannot be converted to `isize`
     /// or if the resulting range does not fit into `usize`.
     fn shift_token(token: Token, offset: isize) -> Token {
-        let start: isize = token.range.start.try_into().expect("Range is too big");
-        let end: isize = token.range.end.try_into().expect("Range is too big");
-        let new_start: usize = (start + offset).try_into().expect("Range is too big");
-        let new_end: usize = (end + offset).try_into().expect("Range is too big");
+        fn shift_range(range: Range<usize>, offset: isize) -> Range<usize> {
+            let start: isize = range.start.try_into().expect("Range is too big");
+            let end: isize = range.end.try_into().expect("Range is too big");
+            let new_start: usize = (start + offset).try_into().expect("Range is too big");
+            let new_end: usize = (end + offset).try_into().expect("Range is too big");
+            new_start..new_end
+        }
+
+        // the lexical errors of a token have absolute ranges, so they move with it
+        let mut errors = Vec::with_capacity(token.errors.len());
+        for SplError(range, message) in token.errors {
+            errors.push(SplError(shift_range(range, offset), message));
+        }
         Token {
-            range: new_start..new_end,
+            range: shift_range(token.range, offset),
+            errors,
             ..token
         }
     }
